@@ -43,7 +43,12 @@ VALFNS = {
     'skipodd': (lambda: (lambda x: SKIP if x % 2 else x), lambda x: rSKIP if x % 2 else x),
     'stop3': (lambda: (lambda x: STOP if x == 2 else x), lambda x: rSTOP if x == 2 else x),
 }
-AGGS = {'first': First, 'max': Max, 'min': Min, 'avg': Avg, 'sum': Sum, 'count': Count, 'flatten': Flatten, 'merge': Merge}
+class _FlattenTuple:
+    def __new__(cls):
+        return Flatten(init=tuple)
+
+
+AGGS = {'flatten_tuple': _FlattenTuple, 'first': First, 'max': Max, 'min': Min, 'avg': Avg, 'sum': Sum, 'count': Count, 'flatten': Flatten, 'merge': Merge}
 FNLEAF = {'neg': (lambda: (lambda x: -x), lambda x: -x)}
 
 
@@ -124,6 +129,11 @@ def loop(term, items):
         out = {}
         for it in items:
             out.update(it)
+        return out
+    if name == 'flatten_tuple':
+        out = ()
+        for it in items:
+            out += it
         return out
     raise AssertionError(term)
 
@@ -207,6 +217,8 @@ def op_step(term, item, st):
     elif name == 'merge':
         st.acc = (st.acc if st.acc is not None else {})
         st.acc.update(item)
+    elif name == 'flatten_tuple':
+        st.acc = (st.acc if st.acc is not None else ()) + item
     return st.acc
 
 
@@ -250,6 +262,9 @@ def mk_items(kind, seq):
     if kind == 'dicts':
         menu = [{'a': 1}, {'b': 2, 'a': 0}, {}, {'c': 3, 'd': 4, 'a': 9}]
         return [dict(menu[i]) for i in seq]
+    if kind == 'tuples':
+        menu = [(1,), (2, 3), (), (4, 5, 6)]
+        return [menu[i] for i in seq]
     raise ValueError(kind)
 
 
@@ -315,7 +330,7 @@ def gen_specs(tier):
         for leaf in INT_LEAVES:
             specs.append(('ints', ['dict', k1, ['dict', k2, ['dict', k3, leaf]]]))
     # list- and dict-valued items
-    for leaf, kind in ((['agg', 'flatten'], 'lists'), (['agg', 'merge'], 'dicts'), (['agg', 'count'], 'lists'), (['list', 'T'], 'dicts')):
+    for leaf, kind in ((['agg', 'flatten'], 'lists'), (['agg', 'merge'], 'dicts'), (['agg', 'count'], 'lists'), (['list', 'T'], 'dicts'), (['agg', 'flatten_tuple'], 'tuples')):
         specs.append((kind, leaf))
         specs.append((kind, ['dict', 'len', leaf]))
         specs.append((kind, ['dict', 'len', ['dict', 'const', leaf]]))
